@@ -40,8 +40,9 @@ func TestShrink(t *testing.T) {
 	var run func(b *dbm.Case) error
 	var wrap func(b *dbm.Case) any
 	var probe struct {
-		Base *dbm.Case `json:"base"`
-		Ops  []dbm.Op  `json:"ops"`
+		Base   *dbm.Case   `json:"base"`
+		Ops    []dbm.Op    `json:"ops"`
+		Faults []vfs.Fault `json:"faults"`
 	}
 	json.Unmarshal(raw.Case, &probe)
 	switch {
@@ -84,7 +85,7 @@ func TestShrink(t *testing.T) {
 		base = lc.Base
 		run = func(b *dbm.Case) error { x := *lc; x.Base = b; _, err := runLifecycle(&x); return err }
 		wrap = func(b *dbm.Case) any { x := *lc; x.Base = b; return &x }
-	case raw.Property == "C08" || raw.Property == "C09":
+	case probe.Faults != nil:
 		ec := &ECase{}
 		json.Unmarshal(raw.Case, ec)
 		tryE := func(mod func(x *ECase)) bool {
